@@ -318,6 +318,12 @@ def run_c17(ctx):
         v = retgen.gen_value(t, rng, c, force="empty")
         cases.append((t, v, retgen.MODES[(j + ctx.seed) % len(retgen.MODES)], False))
     n += len(with_vec)
+    # zero-sized leaves behind the same containers (marker types): multi-use and single-use paths
+    for j, t in enumerate(retgen.ZST_TYPES):
+        for mode in ("each", "some"):
+            c = retgen.Counter()
+            cases.append((t, retgen.gen_value(t, rng, c, force="first"), mode, False))
+    n += 2 * len(retgen.ZST_TYPES)
     k = 0
     while len(cases) < n + 2 * len(ownable):
         # reference-carrying types dominate; every accepted one is visited in turn
